@@ -67,6 +67,7 @@ type world struct {
 	idLen  int
 	nextSn bool // the next locally built change is a snapshot (read by idGen only for bookkeeping)
 	failed bool
+	refusePct int // chance that a delivery meets a refusing validator
 }
 
 type randReader struct{ r *corr.Run }
